@@ -30,6 +30,11 @@ pub fn cases(rng: &mut Rng, tier: &str) -> (Vec<Case>, bool) {
             // replaces an earlier line of the same number
             text.push_str("\n9980 GOTO 9983\n9981 PRINT \"SKIPPED\"\n9983 :\n9984 : :\n9985 PRINT \"LANDED\"\n9981 :");
         }
+        if i % 3 == 2 {
+            // blanks that are not BASIC blanks (no-break, full-width, zero-width no-break) INSIDE literal text: part of the
+            // string / remark / DATA item in both modes
+            text.push_str("\n9970 PRINT \"x\u{a0}y|\u{3000}|\u{feff}z\"\n9971 REM no\u{a0}break\n9972 DATA a\u{a0}b, \"c\u{3000}\"\n9973 READ U$, V$ : PRINT U$; \"|\"; V$; \"|\"");
+        }
         if i % 4 == 2 {
             // line numbers beyond what any classic BASIC allowed, up to the largest the store takes
             text.push_str("\n63999 X9 = 1\n64000 PRINT \"BIG\"; X9\n100000 Y9 = 2\n4294967296 PRINT Y9\n18446744073709551615 END");
